@@ -251,7 +251,10 @@ def applied_delay(raw: Any, remaining_ticks: int | None) -> float:
     """Property C05: non-finite or negative -> 0, capped at the time remaining."""
     try:
         x = float(raw)
-    except (TypeError, ValueError, OverflowError):
+    except OverflowError:
+        # an int beyond the float range is finite: capped at the remaining time (0 when negative)
+        return g(remaining_ticks) if raw > 0 and remaining_ticks is not None else 0.0
+    except (TypeError, ValueError):
         x = 0.0
     if not math.isfinite(x) or x < 0:
         x = 0.0
@@ -350,7 +353,7 @@ def c02(case: dict, cv: CallView, out: list, tol_s: float = 0.0) -> dict:
                 if late:
                     out.append(("C02:sleep-after-deadline-failure", f"attempt {a.n} failed at {t_fail}s >= deadline {D}s and a sleep was requested"))
                 for ee in a.ev[:i]:
-                    if ee[0] == "strat" and isinstance(ee[8], (int, float)) and not math.isnan(ee[8]) and ee[8] > remaining:
+                    if ee[0] == "strat" and isinstance(ee[8], (int, float)) and ee[8] == ee[8] and ee[8] > remaining:
                         info["clamped"] = True
             elif e[0] == "metric" and e[1] == "retry" and late:
                 out.append(("C02:retry-after-deadline-failure", f"attempt {a.n} failed at {t_fail}s >= deadline {D}s and a retry was granted"))
@@ -790,7 +793,7 @@ def c05(case: dict, cv: CallView, out: list) -> dict:
             if rem != g(rem_ticks):
                 out.append(("C05:ctx-remaining", f"strategy saw remaining_s={rem!r}, deadline - elapsed = {g(rem_ticks)!r}"))
         applied = applied_delay(raw, rem_ticks)
-        if not (isinstance(raw, (int, float)) and not isinstance(raw, bool) and math.isfinite(raw) and raw >= 0 and applied == raw):
+        if not (isinstance(raw, float) and math.isfinite(raw) and raw >= 0 and applied == raw):
             info["sanitised"] = True
         if not retries:
             continue
